@@ -91,6 +91,9 @@ func (g *gen) smallInt() *big.Int {
 var sizeBoundaries = []int{0, 1, 2, 31, 32, 33, 63, 64, 65, 255, 256, 257}
 var bigSizes = []int{65535, 65536, 65537, 131069, 131070}
 
+// bigDiv thins out the cases carrying 64-128 kB strings (thorough tier: the stream would not fit)
+var bigDiv = 1
+
 // byteString returns a byte string biased to interesting lengths and contents.
 func (g *gen) byteString(allowBig bool) []byte {
 	var n int
@@ -98,7 +101,7 @@ func (g *gen) byteString(allowBig bool) []byte {
 	case 0, 1, 2:
 		n = sizeBoundaries[g.r.Intn(len(sizeBoundaries))]
 	case 3:
-		if allowBig && g.r.Intn(24) == 0 {
+		if allowBig && g.r.Intn(24*bigDiv) == 0 {
 			n = bigSizes[g.r.Intn(len(bigSizes))]
 		} else {
 			n = g.r.Intn(70)
@@ -167,6 +170,11 @@ func (g *gen) prim(hint byte) arg {
 		default:
 			return arg{kind: 'i', i: g.bigInt()}
 		}
+	case 's': // index into a short stack / small count
+		if g.r.Intn(10) < 7 {
+			return arg{kind: 'i', i: big.NewInt(int64(g.r.Intn(7)) - 1)}
+		}
+		return arg{kind: 'i', i: g.smallInt()}
 	case 'n':
 		if g.r.Intn(12) == 0 {
 			return arg{kind: 's', bs: g.byteString(false)}
@@ -184,6 +192,9 @@ func (g *gen) prim(hint byte) arg {
 			return arg{kind: 's', bs: g.byteString(true)}
 		}
 	case 'B':
+		if g.r.Intn(8) == 0 {
+			return arg{kind: 'f', bs: g.r.Bytes(g.r.Intn(2))} // Buffer: true whatever it holds
+		}
 		switch g.r.Intn(6) {
 		case 0:
 			return arg{kind: 'i', i: g.bigInt()}
@@ -197,6 +208,9 @@ func (g *gen) prim(hint byte) arg {
 	case 'k':
 		if g.r.Intn(3) == 0 {
 			return keyPool[g.r.Intn(len(keyPool))]
+		}
+		if g.r.Intn(12) == 0 {
+			return arg{kind: 's', bs: make([]byte, 63+g.r.Intn(3))} // around MaxKeySize
 		}
 		switch g.r.Intn(5) {
 		case 0:
@@ -315,6 +329,7 @@ var keyPool = []arg{
 	{kind: 'i', i: big.NewInt(0)}, {kind: 'i', i: big.NewInt(1)}, {kind: 'i', i: big.NewInt(-1)}, {kind: 'i', i: big.NewInt(255)}, {kind: 'i', i: big.NewInt(2)},
 	{kind: 'b', b: false}, {kind: 'b', b: true},
 	{kind: 's', bs: []byte{}}, {kind: 's', bs: []byte{0}}, {kind: 's', bs: []byte{1}}, {kind: 's', bs: []byte{0xff}}, {kind: 's', bs: []byte{0xff, 0}}, {kind: 's', bs: []byte{2}},
+	{kind: 's', bs: make([]byte, 64)}, // MaxKeySize
 }
 
 func (g *gen) keyPrim() arg {
@@ -377,14 +392,14 @@ var opSpecs = []opSpec{
 	{opcode.SUBSTR, "bnn", "splice", -1, false}, {opcode.LEFT, "bn", "splice", -1, false}, {opcode.RIGHT, "bn", "splice", -1, false},
 	// stack
 	{opcode.DEPTH, "xx", "stack", -1, false}, {opcode.DROP, "xx", "stack", -1, false}, {opcode.NIP, "xxx", "stack", -1, false},
-	{opcode.XDROP, "xxxn", "stack", -1, false}, {opcode.CLEAR, "xx", "stack", -1, false}, {opcode.DUP, "xx", "stack", -1, false},
-	{opcode.OVER, "xxx", "stack", -1, false}, {opcode.PICK, "xxxn", "stack", -1, false}, {opcode.TUCK, "xxx", "stack", -1, false},
-	{opcode.SWAP, "xxx", "stack", -1, false}, {opcode.ROT, "xxxx", "stack", -1, false}, {opcode.ROLL, "xxxn", "stack", -1, false},
-	{opcode.REVERSE3, "xxxx", "stack", -1, false}, {opcode.REVERSE4, "xxxxx", "stack", -1, false}, {opcode.REVERSEN, "xxxxn", "stack", -1, false},
+	{opcode.XDROP, "xxxs", "stack", -1, false}, {opcode.CLEAR, "xx", "stack", -1, false}, {opcode.DUP, "xx", "stack", -1, false},
+	{opcode.OVER, "xxx", "stack", -1, false}, {opcode.PICK, "xxxs", "stack", -1, false}, {opcode.TUCK, "xxx", "stack", -1, false},
+	{opcode.SWAP, "xxx", "stack", -1, false}, {opcode.ROT, "xxxx", "stack", -1, false}, {opcode.ROLL, "xxxs", "stack", -1, false},
+	{opcode.REVERSE3, "xxxx", "stack", -1, false}, {opcode.REVERSE4, "xxxxx", "stack", -1, false}, {opcode.REVERSEN, "xxxxs", "stack", -1, false},
 	// types
 	{opcode.ISNULL, "x", "types", -1, false}, {opcode.ISTYPE, "x", "types", -1, true}, {opcode.CONVERT, "x", "convert", -1, true},
 	// compound
-	{opcode.PACKMAP, "xkxkn", "compound", -1, false}, {opcode.PACKSTRUCT, "xxxn", "compound", -1, false}, {opcode.PACK, "xxxn", "compound", -1, false},
+	{opcode.PACKMAP, "xkxks", "compound", -1, false}, {opcode.PACKSTRUCT, "xxxs", "compound", -1, false}, {opcode.PACK, "xxxs", "compound", -1, false},
 	{opcode.UNPACK, "c", "compound", -1, false}, {opcode.NEWARRAY0, "", "compound", -1, false}, {opcode.NEWARRAY, "n", "compound", -1, false},
 	{opcode.NEWARRAYT, "n", "compound", -1, true}, {opcode.NEWSTRUCT0, "", "compound", -1, false}, {opcode.NEWSTRUCT, "n", "compound", -1, false},
 	{opcode.NEWMAP, "", "compound", -1, false}, {opcode.SIZE, "x", "compound", -1, false}, {opcode.HASKEY, "ck", "compound", -1, false},
